@@ -78,6 +78,9 @@ def thorough(ck):
     jobs = []
     for name, patch, meta in corpus("seeded"):
         if meta.get("property") == prop:
+            if meta.get("declined"):
+                res.setdefault("seeded_declined", []).append(name)      # breaks a clause the check declares it does not decide
+                continue
             jobs.append(("seeded", name, patch))
     for name, patch, meta in corpus("benign"):
         jobs.append(("benign", name, patch))
@@ -99,7 +102,7 @@ def thorough(ck):
             else:
                 res["benign_silent"].append(name)
     clear_caches()
-    ck.extra["self_validation"] = {k: (v if k.endswith(("missed", "alarm", "skipped")) else len(v)) for k, v in res.items()}
+    ck.extra["self_validation"] = {k: (v if k.endswith(("missed", "alarm", "skipped", "declined")) else len(v)) for k, v in res.items()}
     ck.extra["self_validation"]["seeded_reported_detail"] = res["seeded_reported"]
     for name in res["seeded_missed"]:
         ck.unsure("SELF", None, "seeded break %s (confirmed to violate %s) is reported by this check" % (name, prop), None,
